@@ -572,6 +572,8 @@ class Executor:
     def operand_type(self, frame, op):
         if op.mode != 'const' and not op.place.proj:
             return frame.fn.local_types.get(op.place.local)
+        if op.mode != 'const' and op.place.ty is not None and op.place.proj and op.place.proj[-1][0] == 'field':
+            return op.place.ty
         if op.mode == 'const' and op.const.kind == 'int':
             return op.const.value[1]
         return None
@@ -579,6 +581,8 @@ class Executor:
     def int_ty_of_place(self, frame, place):
         if not place.proj:
             return frame.fn.local_types.get(place.local)
+        if place.ty is not None and place.proj[-1][0] == 'field':
+            return place.ty
         return None
 
     def binop(self, path, frame, name, a, b, ta, dst_ty):
